@@ -269,7 +269,7 @@ impl<'a> Run<'a> {
 		// plenty of confirmed wallet UTXOs: anchor claims must never fail for lack of coins (coin-selection
 		// failures are the wallet's business, not the monitor's)
 		if spec.ctype != CType::Static {
-			sim.fund_wallets(10);
+			sim.fund_wallets(28);
 		}
 		let mut r = Run {
 			case,
@@ -1013,12 +1013,26 @@ impl<'a> Run<'a> {
 		self.observe()?;
 		self.process_all_events(pump)?;
 		self.prune_orphans();
+		self.step_checks()?;
+		self.sim.trim();
+		Ok(())
+	}
+
+	/// the per-block oracles (d) and (b)
+	fn step_checks(&mut self) -> CaseResult {
 		let r = self.check_balances();
 		self.soft(r)?;
 		let r = self.check_timeliness();
-		self.soft(r)?;
-		self.sim.trim();
-		Ok(())
+		self.soft(r)
+	}
+
+	/// a block mined by a traffic op before the closure: events are handled after every block, as a user's
+	/// event loop does (a BumpTransaction event handled a block late would be stale through no fault of LDK)
+	pub fn after_traffic_block(&mut self) -> CaseResult {
+		self.stats.blocks += 1;
+		self.observe()?;
+		self.process_all_events(false)?;
+		self.step_checks()
 	}
 
 	fn set_sweep_feerate(&mut self, node: usize, rate: u32) {
@@ -1119,8 +1133,7 @@ impl<'a> Run<'a> {
 				self.stats.blocks += 1;
 				self.observe()?;
 				self.process_all_events(true)?;
-				self.check_balances()?;
-				self.check_timeliness()
+				self.step_checks()
 			},
 		}
 	}
@@ -1506,6 +1519,29 @@ fn run_inner(r: &mut Run, ctx: &mut Ctx, tail_blocks: u32) -> CaseResult {
 		// debug assertion "some channel balance has been overdrawn") is the verdict of the channel-state
 		// properties (C01), not of the on-chain claim machinery: labelled and the case is given up.
 		let open_before = r.closed.is_empty() && r.sim.chans.iter().enumerate().all(|(i, c)| r.sim.chan_details(c.a, i).is_some() && r.sim.chan_details(c.b, i).is_some());
+		if let Op::Mine { blocks, include, pick: p } = op {
+			// same semantics as `ops::apply`, but block by block
+			let mut txs: Vec<Transaction> = r.sim.chain.mempool.clone();
+			match include {
+				0 => txs.clear(),
+				1 => {},
+				2 => txs.reverse(),
+				_ => {
+					if !txs.is_empty() {
+						let i = pick(*p, txs.len());
+						txs = vec![txs[i].clone()];
+					}
+				},
+			}
+			r.sim.mine_block(txs);
+			r.after_traffic_block()?;
+			for _ in 1..*blocks {
+				r.sim.mine_block(vec![]);
+				r.after_traffic_block()?;
+			}
+			r.tags.push("mine");
+			continue;
+		}
 		let res = std::panic::catch_unwind(std::panic::AssertUnwindSafe(|| apply(&mut r.sim, &spec, op)));
 		let tag = match res {
 			Ok(t) => t,
@@ -1522,12 +1558,6 @@ fn run_inner(r: &mut Run, ctx: &mut Ctx, tail_blocks: u32) -> CaseResult {
 		};
 		r.tags.push(tag);
 		r.observe()?;
-		if tag == "mine" {
-			// blocks before the closure: an HTLC nearing its expiry may make a node close by itself
-			r.process_all_events(false)?;
-			r.check_balances()?;
-			r.check_timeliness()?;
-		}
 	}
 	if !r.closed.is_empty() || r.sim.chans.iter().enumerate().any(|(i, c)| r.sim.chan_details(c.a, i).is_none() || r.sim.chan_details(c.b, i).is_none()) {
 		r.stats.closed_automatically = true;
